@@ -310,7 +310,16 @@ def per_evaluation_state(ctx):
         for c in calls_in(u):
             if callee_qual(p, u, c) == 'core._ArgValuator':
                 sites.append((u, c))
-    ctx.require(sites, '_ArgValuator is never constructed')
+    au = ctx.unit('core.arg_val')
+    ctx.ob(any(u is au for u, _ in sites), au, 'arg_val constructs its own argument valuator',
+           '' if any(u is au for u, _ in sites) else 'no _ArgValuator() in arg_val: the valuator (and its id()-keyed cycle memo) '
+           'is shared between evaluations, so a memo entry left by one call is seen by the next')
+    installs = [n for n in au.own_nodes() if isinstance(n, ast.Assign) and isinstance(n.targets[0], ast.Subscript)
+                and p.scope_key(au, n.targets[0].slice) == 'core.MIN_MODE' and isinstance(n.value, ast.Attribute)]
+    for n in installs:
+        ok = isinstance(n.value.value, ast.Call)
+        ctx.ob(ok, au, 'the installed mode function belongs to a valuator created in this call: %s' % norm(n),
+               '' if ok else '%s is not allocated here' % src(n.value.value), node=n)
     for u, c in sites:
         ok = u.qualname == 'core.arg_val'
         ctx.ob(ok, u, 'the argument valuator (with its cycle memo) is constructed per arg_val call: %s' % norm(c),
